@@ -226,7 +226,9 @@ def run_episode(env, cfg):
     if cfg.get("third_party"):
         # an offer from an unrelated device while we are binding
         t3 = env.real("t_third", 0, 6)
-        off = Command.put_bind(" I", "30:111111", ["31E0"], dst_id="30:111111")
+        # ... self-addressed (evohome style) or to the broadcast address (Orcon style)
+        dst3 = env.choice("third_dst", ["30:111111", "63:262142"])
+        off = Command.put_bind(" I", "30:111111", ["31E0"], dst_id=dst3)
         m3 = ether._msg(str(off))
 
         def third():
@@ -317,6 +319,7 @@ def configs(tier):
     out.append(("no-respondent[REM]", dict(flow="REM", present="S", deliveries=2)))
     out.append(("late-supplicant[THM]", dict(flow="THM", supp_start="sym", deliveries=4)))
     out.append(("third-party[DHW]", dict(flow="DHW", third_party=True, deliveries=4, prompt=True)))
+    out.append(("third-party[REM]", dict(flow="REM", third_party=True, deliveries=4, prompt=True)))
     out.append(("loss[THM]", dict(flow="THM", loss=True, deliveries=4)))
     out.append(("loss[CO2,repeat=1]", dict(flow="CO2", loss=True, repeats=1, deliveries=3)))
     out.append(("send-fails[DHW]", dict(flow="DHW", send_fails=True, deliveries=4)))
